@@ -122,7 +122,12 @@ def run(chk):
 
     # ---- calc_highest: comparison-only use, then fold on all membership patterns x rank orders ----------------
     w_ch, q_ch = loc(repo, BASE, 'calc_highest', 'C04.R2')
-    _, ch = repo.method(BASE, 'calc_highest', 'C04.R2')
+    ch_ci, ch = repo.method(BASE, 'calc_highest', 'C04.R2')
+    # a thin wrapper `return helper(...)` around a module-level function: the use analysis applies to the helper
+    _body = [b for b in ch.body if not (isinstance(b, ast.Expr) and isinstance(b.value, ast.Constant))]
+    if len(_body) == 1 and isinstance(_body[0], ast.Return) and isinstance(_body[0].value, ast.Call) and isinstance(_body[0].value.func, ast.Name) \
+            and _body[0].value.func.id in ch_ci.module.functions:
+        ch = ch_ci.module.functions[_body[0].value.func.id]
     bad = None
     for n in ast.walk(ch):
         if isinstance(n, ast.Attribute) and n.attr in ('rank', 'suit'):
@@ -131,6 +136,8 @@ def run(chk):
                 continue
             if isinstance(par, ast.Assign) and par.value is n:
                 continue
+            if isinstance(par, ast.Tuple) and isinstance(parent(par), ast.Assign) and parent(par).value is par:
+                continue        # stored into a local together with other values (a, b = i, card.rank)
             bad = ast.unparse(par)
     if bad:
         raise AnalysisError('C04.R2', q_ch, f'card rank/suit used outside comparisons (`{bad}`): order-class argument does not apply')
